@@ -610,7 +610,10 @@ class C06(Prop):
                 if out[0] == "err":
                     return where + f"a valid (restricted) assembly raised {out[1]}"
                 rows, lens = sh.rows(kept)
-                cols = lay.cols(refs) if refs else (list(range(lay.total)) if refs is None else [])
+                cols = []
+                if jac:
+                    cols = (lay.cols(refs) if refs
+                            else (list(range(lay.total)) if refs is None else []))
                 is_full = a is None and refs is None and jac
                 if is_full:
                     # the full system: the equations stacked in insertion order
